@@ -92,6 +92,7 @@ class Types:
             self.by_pos[mod][(e.line, e.column, el, ec)] = t
             self.n_exprs += 1
         self._keepalive = result
+        self.errors: List[str] = list(getattr(result, "errors", []) or [])
 
     def _collect(self, mf: Any, name: str, node_mod: Dict[int, str]) -> None:
         from mypy.nodes import Node as MNode, Expression
